@@ -93,12 +93,14 @@ struct RealmBase
 	template<typename T>
 	int get_rlm_idx(const T& what) const
 	{
+		const T *rng(static_cast<const T*>(_range));
 		if (_dtype == dt_set)
 		{
-			const T *rng(static_cast<const T*>(_range)), *res(std::lower_bound(rng, rng + _sz, what));
-			return res != rng + _sz ? res - rng : -1;
+			const T *res(std::lower_bound(rng, rng + _sz, what));
+			return res != rng + _sz && !(what < *res) ? res - rng : -1;
 		}
-		return 0;
+		// range { lower, upper }: no index outside the range; the upper bound has its own entry
+		return what < *rng || *(rng + 1) < what ? -1 : *rng < what && !(what < *(rng + 1)) ? 1 : 0;
 	}
 
 	/*! Printer helper
